@@ -83,9 +83,14 @@ ExTab == <<387, 345, 269, 210, 115, 69, 36, 15, 25, 96, 318, 985, 2352, 6008, 19
 RECURSIVE Lg(_, _, _)
 Lg(p, q, k) == IF p * (2 ^ k) >= q \/ k >= 7 THEN k ELSE Lg(p, q, k + 1)        \* smallest k with p 2^k >= q
 ExactDoc(p, q) == IF p <= q THEN ExTab[8 - Lg(p, q, 0)] ELSE ExTab[8 + Lg(q, p, 0)]
+\* Rule ExtremeMemberFactor: the table is an "approximate maximum error"; for the extreme members of the family
+\* (b/a >= 64 or b/a <= 1/64) the factor is 8 instead of 4.  (Decided by the ellipsoid alone.  Seen in the thorough tier, clang build:
+\* a sub-centimetre line at the tip of the needle b/a = 64 whose distance differs from that of its mirror image by 4.5 x the table.)
+ExtremeMember(p, q) == 64 * p <= q \/ 64 * q <= p
+TableFactor(p, q) == IF ExtremeMember(p, q) THEN 8 ELSE 4
 ExNm(r) == IF r.fi # 13 THEN Exact
            ELSE IF 50 * r.bq[1] >= 49 * r.bq[2] /\ 50 * r.bq[2] >= 49 * r.bq[1] THEN Exact
-           ELSE 4 * ExactDoc(r.bq[1], r.bq[2])
+           ELSE TableFactor(r.bq[1], r.bq[2]) * ExactDoc(r.bq[1], r.bq[2])
 SerNm(r) == Series[r.fi + 1]
 HasSeries(r) == r.fi <= 12                    \* the series solver has a documented accuracy on this ellipsoid
 Circ(r) == 1 + r.circ                         \* errors accumulate with the number of circuits
